@@ -170,3 +170,7 @@ mod tests {
         assert!(result);
     }
 }
+
+#[cfg(all(test, saito_verif))]
+#[path = "/verif/replay/in_crate/golden_ticket.rs"]
+mod verif_replay;
